@@ -23,9 +23,10 @@ from builders import c12_amplify as M
 from builders import c12_limits as X
 from builders import c12_loopcheck, c12_loops as L
 from builders import c12_xmlcheck as XC
+from builders import c12_history as H
 from builders.c12_trace import Probe, StepLimit, Tracer
 
-GEN = ["Loops", "C12Consts", "C12Xml", "PyLoops", "Aes", "PyAes"]
+GEN = ["Loops", "C12Consts", "C12Xml", "C12Sites", "PyLoops", "Aes", "PyAes"]
 RULE = ("loops: per modelled loop a structured stream (BIFF records, JPEG segments, PPT record trees, BLIP records, DIB headers, "
         "PNG chunk chains, RTF token soup, 7z header properties) + a malformed stream over marker-rich alphabets + fixed "
         "adversarial cases (zero-length records, maximal lengths, markers at the last offsets); limits: sizes limit-1/limit/limit+1 "
@@ -39,6 +40,11 @@ RULE = ("loops: per modelled loop a structured stream (BIFF records, JPEG segmen
         "read_zip_xml_root; XML packages: every XML member of hand-written DOCX/PPTX/XLSX/ODT/ODS/ODP/ODG/ODF/EPUB packages and of the "
         "repository's small fixtures x leading bytes (none, BOM, LF, CRLF, space, TAB+LF, BOM+LF, BOM+CRLF CRLF) x reference in root text / first "
         "text node / attribute x other parts behind a blank line or not, nested entities (16-fold, 4 levels = 2 MiB if expanded) or quadratic blow-up. "
+        "read_file HISTORIES on one path: 2-8 events call(limit) / resize(size around the limit; rewritten, grown in place or replaced by a new file) / "
+        "consume(i) incl. several pending results, consumption out of order, a second call after the file changed, + 25 fixed histories; "
+        "compressed STREAMS that are not the container the dispatcher expects: gzip / bzip2 / xz files of 1-2 members (one expanding to 32 x the "
+        "per-member limit, the last to 5 bytes; forged ISIZE; a real tar.gz followed by further members) under the names x.txt.gz / x.tgz / none, "
+        "through read_archive and read_file; multi-member gzip files against the ISIZE / bounded-read model. "
         "distinct = distinct (loop, input) / (limit site, size) pairs; non-trivial = non-empty input")
 ASSUMPTIONS = [
     "CPython semantics of slicing, int.from_bytes, struct.unpack, bytes.find, BytesIO.read/seek (modelled, tied by the correspondence)",
@@ -427,16 +433,149 @@ def _limits_correspondence(ctx):
     return broken
 
 
+# ============================================================================ histories of read_file / compressed streams
+def _obs_eq(model, real, ev):
+    """model observation vs. real one (a read at CALL time is invisible from outside)"""
+    if ev["ev"] == "call" and isinstance(model, dict):
+        model = "none"
+    return model == real
+
+
+def _history_correspondence(ctx):
+    """the history model (activations GENERATED from the current source) against the real read_file on real files;
+    multi-member gzip files against the ISIZE / bounded-read model"""
+    broken = []
+    hs = H.fixed_histories() + [H.gen_history(ctx.rng) for _ in range(ctx.n(40, 400))]
+    reqs = [{"op": "c12.history", "size": s0, "events": [{k: v for k, v in e.items() if k != "mode"} for e in evs]} for s0, evs in hs]
+    outs = ctx.drive(reqs)
+    for (s0, evs), o in zip(hs, outs):
+        ctx.case(("history", s0, repr(evs)))
+        deferred = any(e["ev"] == "resize" and any(f["ev"] == "call" for f in evs[:k]) and any(f["ev"] == "consume" for f in evs[k:])
+                       for k, e in enumerate(evs))
+        ctx.count("limits/read_file-history/" + ("file-changes-between-call-and-consume" if deferred else "quiescent"))
+        real = H.read_file_history(s0, evs)
+        if "drv_error" in o or len(o["obs"]) != len(real) or not all(_obs_eq(m, r, e) for m, r, e in zip(o["obs"], real, evs)):
+            broken.append(Broken("correspondence", "c12.history", f"impl={real} model={o}", case={"kind": "read_file_history", "size": s0, "events": evs}))
+    rng = ctx.rng
+    cfgs = [([0], 10), ([5], 10), ([11], 10), ([10, 0], 10), ([3000, 5], 1000), ([5, 3000], 1000), ([400, 400, 400], 1000), ([70000, 1], 4096)]
+    for _ in range(ctx.n(10, 80)):
+        lim = rng.choice([10, 1000, 4096])
+        cfgs.append(([max(0, rng.choice([0, 1, lim - 1, lim, lim + 1, 3 * lim, rng.randint(0, 2 * lim)])) for _ in range(rng.randint(1, 4))], lim))
+    outs = ctx.drive([{"op": "c12.gz_stream", "members": ms, "limit": lim} for ms, lim in cfgs])
+    for (ms, lim), o in zip(cfgs, outs):
+        ctx.case(("gz_stream", tuple(ms), lim))
+        ctx.count("streams/gzip-" + ("multi-member" if len(ms) > 1 else "single-member"))
+        real = H.gzip_facts(ms, lim)
+        if "drv_error" in o or any(o[k] != real[k] for k in ("isize", "inflated", "bounded_read")):
+            broken.append(Broken("correspondence", "c12.gz_stream", f"CPython gzip={real} model={o}", case={"kind": "gz_stream", "members": ms, "limit": lim}))
+    return broken
+
+
+def _history_violation(size0, events):
+    """the statement on one history (no model involved): whatever is read into memory for a result obtained with max_file_size=L > 0 has
+    at most L bytes; a refusal needs a moment between the call and the consumption at which the file was larger than L; nothing else fails"""
+    real = H.read_file_history(size0, events)
+    calls = H.history_windows(size0, events)
+    rep = {"kind": "read_file_history", "size": size0, "events": events}
+    story = f"file of {size0} bytes; " + ", ".join(
+        f"read_file(max_file_size={e['limit']})" if e["ev"] == "call" else f"the file is {e.get('mode', 'rewrite')}n to {e['size']} bytes".replace("rewriten", "rewritten").replace("replacen", "replaced by a new file of").replace("of to", "of") if e["ev"] == "resize"
+        else f"result {e['i']} consumed -> {o}" for e, o in zip(events, real))
+    n_call = -1
+    for e, o in zip(events, real):
+        if e["ev"] == "resize":
+            continue
+        if e["ev"] == "call":
+            n_call += 1
+            c = calls[n_call]
+        else:
+            if e["i"] >= len(calls):
+                continue
+            c = calls[e["i"]]
+        lim = c["limit"]
+        if isinstance(o, dict) and lim > 0 and o["read"] > lim:
+            return Violation("limit.read_file-judges-another-file",
+                             f"{story}: {o['read']} characters delivered under max_file_size={lim} — the limit was judged on a file that is not the one read", rep)
+        if isinstance(o, str) and o.startswith("ERR"):
+            return Violation("limit.read_file-deferred", f"{story}: {o}", rep)
+        if o == "reject":
+            seen = c["sizes"][:1] if e["ev"] == "call" else c["sizes"]
+            if not (lim > 0 and any(s > lim for s in seen)):
+                return Violation("limit.read_file-deferred", f"{story}: refused although the file never had more than max_file_size={lim} bytes "
+                                 f"between the call and the consumption (sizes {seen})", rep)
+    return None
+
+
+def _oracle_histories(ctx, extra=()):
+    out = []
+    for s0, evs in list(extra) + H.fixed_histories():
+        ctx.count("oracle/read_file-history")
+        v = _history_violation(s0, evs)
+        if v is not None and not any(x.key == v.key for x in out):
+            out.append(v)
+    return out
+
+
+STREAM_LIMIT = 256 * 1024          # configured per-member limit of the stream oracle
+STREAM_FACTOR = 32                 # the big member expands to STREAM_FACTOR x the limit (8 MiB)
+
+
+def _stream_cases():
+    big = STREAM_FACTOR * STREAM_LIMIT
+    cases = []
+    for codec, ext, short in (("gz", ".gz", ".tgz"), ("bz2", ".bz2", ".tbz2"), ("xz", ".xz", ".txz")):
+        shapes = [([big], None), ([big, 5], None)] + ([([big], 5), ([5, big], None)] if codec == "gz" else [])
+        for members, forge in shapes:
+            for name, vias in (("notes.txt" + ext, ("read_archive", "read_file")), ("notes" + short, ("read_file",)), (None, ("read_archive",))):
+                for via in vias:
+                    cases.append({"limit": STREAM_LIMIT, "codec": codec, "members": members, "forge_isize": forge, "name": name, "via": via})
+    cases.append({"limit": STREAM_LIMIT, "codec": "tar+gz", "members": [big, 5], "forge_isize": None, "name": "bundle.tar.gz", "via": "read_file"})
+    cases.append({"limit": None, "codec": "gz", "members": [24 * MB, 5], "forge_isize": None, "name": "notes.txt.gz", "via": "read_archive"})
+    return cases
+
+
+def _stream_violation(c):
+    """the statement on a compressed stream whose content exceeds the per-member limit: it is refused or skipped WITHOUT being
+    decompressed into memory — no text beyond the limit comes back, and the peak of additional memory stays below half of what it expands to"""
+    from sharepoint2text.parsing.extractors import archive_extractor as A
+    eff = c["limit"] if c["limit"] is not None else A.ArchiveConfig().max_memory_size
+    total = sum(c["members"])
+    if total > 40 * MB or max(c["members"]) <= 2 * eff:
+        return None, "refused: the stream must expand to more than twice the limit and at most 40 MB"
+    data = H.tar_then_stream(c["members"]) if c["codec"] == "tar+gz" else H.stream_bytes(c["codec"], c["members"], c.get("forge_isize"))
+    got = H.stream_run(c["limit"], data, c["name"], c["via"])
+    msg = (f"{c['codec']} file {c['name']!r} of {len(data)} bytes, {len(c['members'])} member(s) expanding to {c['members']} bytes"
+           + (f" (ISIZE forged to {c['forge_isize']})" if c.get("forge_isize") is not None else "") + f", per-member limit {eff}, through {c['via']}: "
+           f"{got['outcome']}, {got['chars']} characters of text, peak additional memory {got['peak']} bytes")
+    if got["chars"] > eff or got["peak"] >= max(c["members"]) // 2 or got["outcome"].startswith("ERR"):
+        return Violation("archive.packed-stream-inflated-beyond-limit", msg + " — a compressed payload above the per-member limit was "
+                         "decompressed into memory (the statement: skipped without being decompressed)", {"kind": "packed_stream", **c}), msg
+    return None, msg
+
+
+def _oracle_streams(ctx):
+    if getattr(ctx, "_c12_streams", None) is not None:
+        return list(ctx._c12_streams)
+    out = []
+    for c in _stream_cases():
+        ctx.count("oracle/packed-stream/" + c["codec"] + ("-multi-member" if len(c["members"]) > 1 else ""))
+        v, _ = _stream_violation(c)
+        if v is not None and not out:
+            out.append(v)
+    ctx._c12_streams = out
+    return list(out)
+
+
 def correspondence(ctx):
     broken, mism = c12_loopcheck.run(ctx, Broken)
     ctx._c12_mismatches = mism
     broken += _limits_correspondence(ctx)
     broken += XC.correspondence(ctx, Broken)
+    broken += _history_correspondence(ctx)
     ctx.sample({"loops": sorted(k for k in ctx.dist if k.startswith("loops/"))[:8]})
     # the package oracle for entity constructs runs on every check (see builders/c12_xmlcheck.py for why); so does the
     # archive oracle (duplicate member names, coder chains): a change there leaves results and unique-name / single-coder
     # archives alone, so nothing else would call for a search
-    return {"broken": broken, "violations": XC.sweep(ctx, Violation) + _oracle_archives(ctx) + _oracle_deferred(ctx)}
+    return {"broken": broken, "violations": XC.sweep(ctx, Violation) + _oracle_archives(ctx) + _oracle_deferred(ctx) + _oracle_histories(ctx) + _oracle_streams(ctx)}
 
 
 # ============================================================================ oracle (property statement on the real code)
@@ -1012,6 +1151,11 @@ def search(ctx, broken):
             vs += _named_violations(c["archive"], c["limit"], c["entries"])
         elif c.get("kind") == "7z_chain":
             vs += _chain_violations(c["limit"], [[(nm, sz) for nm, sz in f] for f in c["folders"]], c["chains"])
+        elif c.get("kind") == "read_file_history":
+            v = _history_violation(c["size"], c["events"])
+            if v is not None and not any(x.key == v.key for x in vs):
+                vs.append(v)
+    vs += _oracle_histories(ctx) + _oracle_streams(ctx)
     vs += XC.sweep(ctx, Violation, full=True)
     # open known findings are reported by known_witnesses(); returning them here would hide a broken obligation
     # for which no NEW failing input exists (run.py then says `no-failing-input-found`)
@@ -1044,6 +1188,12 @@ def replay(ctx, payload):
     if kind == "read_file_deferred":
         v = _deferred_violation(rep["limit"], rep["size_at_call"], rep["size_at_read"])
         return v is None, v.what if v else "the limit is judged on the file that is read"
+    if kind == "read_file_history":
+        v = _history_violation(rep["size"], rep["events"])
+        return v is None, v.what if v else f"history {rep['events']} on a {rep['size']}-byte file: every read within the limit in force, no unfounded refusal"
+    if kind == "packed_stream":
+        v, msg = _stream_violation(rep)
+        return v is None, v.what if v else msg
     if kind == "7z_size":
         d = X.sevenzip_size_decision(rep["size"])
         want = "reject" if rep["size"] > 100 * MB else "accept"
